@@ -275,8 +275,11 @@ def gen_plan_c19_enum(rng: Rng, tier: str, what: str, base: int = 0) -> Dict[str
     out = rng.choice(["cp/g", "deep/er/dir/g"])
     load = _load_op(rng, inc)
     if what == "save":
-        edit = rng.chance(0.7)
-        what_if = [{"op": "cp_reweight", "graph": 0, "edits": gen_edits(rng)}, {"op": "cp_recompute", "graph": 0}] if edit else []
+        edit = rng.chance(0.7) or base % 2 == 1
+        eds = gen_edits(rng)
+        if base % 2 == 1:
+            eds = [{"swap_on_off": [rng.below(10000), rng.below(10000)]}, {"swap": [rng.below(10000), rng.below(10000)]}]
+        what_if = [{"op": "cp_reweight", "graph": 0, "edits": eds}, {"op": "cp_recompute", "graph": 0}] if edit else []
         a_ops = [load, analyze, {"op": "cp_breakdown", "graph": 0},
                  {"op": "cp_save", "graph": 0, "out_dir": out}]      # <- target: op 3 of session 0
         a_ops += what_if + [{"op": "cp_breakdown", "graph": 0}, {"op": "cp_save", "graph": 0, "out_dir": out},
@@ -288,6 +291,9 @@ def gen_plan_c19_enum(rng: Rng, tier: str, what: str, base: int = 0) -> Dict[str
                  {"op": "cp_restore", "zip": out + ".zip", "rank": rank},
                  {"op": "cp_breakdown", "graph": 1}, {"op": "cp_recompute", "graph": 1}]
         target = {"session": 0, "op": 3, "mode": "w"}
+        if base % 2 == 1:
+            # the re-save into the same directory (an archive of the same size already sits at the destination)
+            target = {"session": 0, "op": 3 + len(what_if) + 2, "mode": "w"}
         kinds = ["write_enospc", "kill"]
     elif base % 2 == 1:
         # the extraction directory still holds the members of an EARLIER version of the same archive (restored
